@@ -10,6 +10,7 @@ step are eventually scheduled (a waiter whose timer fired does run its `select`)
 and cc.c.Close() in CloseConn (the connection counts as closed from decConnsCount on); SetMaxConns at run time.
 -/
 import FhVerif.Proofs.HostPool
+import FhVerif.Gen.PoolShape
 
 namespace Fh.Props.C18
 open Fh.Model.HP Fh.Proofs.HostPool
@@ -204,6 +205,51 @@ theorem wantConnQueue_refines_fifo (ops : List QOp) :
     have := ih (stepImpl q op) key.2
     rw [key.1] at this
     exact this
+
+/-! ### the hand-off loops of client.go have the shape the atomic events assume
+
+`release c` and the decConnsCount part of `close c` are single events of the model although `w.waiting()` and
+`w.tryDeliver` are two steps of the Go loop between which the waiter's `cancel` can run.  That is sound for exactly one
+loop shape (`release_loop_linearises`), and the window is a few nanoseconds wide, so no run reliably distinguishes a
+loop that drops the connection there.  `fhextract` therefore recomputes the control skeletons of the hand-off functions
+on every run (Gen/PoolShape.lean) and these theorems pin them: a change of shape stops the proof. -/
+
+/-- A cancel that slips in between `w.waiting()` and `w.tryDeliver` is indistinguishable from that cancel happening
+    before the release: the loop as written (check, then deliver, go on after a failed delivery) returns what the
+    atomic pop-until-waiting loop returns on the waiters that still wait at delivery time. -/
+theorem release_loop_linearises (check deliver : Nat → Bool) (h : ∀ w, deliver w = true → check w = true)
+    (q : WQ) : popDeliver check deliver q.len q = WQ.popWaiting deliver q.len q :=
+  popDeliver_eq_popWaiting check deliver h q.len q
+
+/-- …whereas the loop that returns after a failed delivery leaves the connection nowhere (not delivered, not idle,
+    still counted) although a second waiter is waiting: waiter 0 is cancelled in the window, waiter 1 waits. -/
+theorem release_without_retry_counterexample :
+    popDeliverNoRetry (fun _ => true) (fun w => w == 1) 2 ((WQ.empty.pushBack 0).pushBack 1) = (none, ⟨[0, 1], 1, []⟩, true) ∧
+    popDeliver (fun _ => true) (fun w => w == 1) 2 ((WQ.empty.pushBack 0).pushBack 1) = (some 1, ⟨[0, 1], 2, []⟩) := by decide
+
+/-- ReleaseConn: the result of tryDeliver decides `break`, and the connection goes to the idle list iff nobody took it -/
+theorem releaseConn_shape : Gen.poolShape_ReleaseConn =
+    ["if c.MaxConnWaitTimeout <= 0 => append c.conns", "if c.MaxConnWaitTimeout <= 0 => return",
+     "if q := c.connsWait; q != nil | for q.len() > 0 | if w.waiting() => tryDeliver:result-used",
+     "if q := c.connsWait; q != nil | for q.len() > 0 | if w.waiting() | if delivered => break",
+     "if !delivered => append c.conns"] := by decide
+
+/-- decConnsCount: the slot goes to the first waiter that still waits (dialConnFor), else the counter is decremented -/
+theorem decConnsCount_shape : Gen.poolShape_decConnsCount =
+    ["if c.MaxConnWaitTimeout <= 0 => connsCount--", "if c.MaxConnWaitTimeout <= 0 => return",
+     "if q := c.connsWait; q != nil | for q.len() > 0 | if w.waiting() => go dialConnFor",
+     "if q := c.connsWait; q != nil | for q.len() > 0 | if w.waiting() => break",
+     "if !dialed => connsCount--"] := by decide
+
+/-- dialConnFor: a failed dial always gives the slot back; a connection nobody takes is released -/
+theorem dialConnFor_shape : Gen.poolShape_dialConnFor =
+    ["if err != nil => tryDeliver:result-dropped", "if err != nil => decConnsCount", "if err != nil => return",
+     "tryDeliver:result-used", "if !w.tryDeliver(cc, nil) => ReleaseConn"] := by decide
+
+/-- cancel returns a delivery that raced in; tryDeliver delivers at most once -/
+theorem cancel_shape : Gen.poolShape_cancel =
+    ["if w.conn == nil && w.err == nil => close", "if conn != nil => ReleaseConn"] ∧
+    Gen.poolShape_tryDeliver = ["if w.conn != nil || w.err != nil => return", "close"] := by decide
 
 /-! ### non-vacuity -/
 
